@@ -117,8 +117,12 @@ def mon_C03(run):
     uo = run.user_opts
     D = run.D
     mfe = uo.get("max_fun_evals", 500 * D)
-    if run.n_init is not None and mfe >= run.n_init and n > mfe:
-        run.v("C03", "more target calls than max_fun_evals", "budget-exceeded", (n, mfe, run.n_init))
+    # size of the initial design: measured on the run, or - where the job states it - from the documented rule (the starting
+    # point, its repeat for the noise test, and the smallest Sobol block of 2^k >= fun_eval_start points), so that a
+    # design that is larger than documented cannot hide behind the precondition
+    n_init = run.job.get("n_init_rule", run.n_init)
+    if n_init is not None and mfe >= n_init and n > mfe:
+        run.v("C03", "more target calls than max_fun_evals", "budget-exceeded", (n, mfe, n_init))
     mit = uo.get("max_iter", 200 * D)
     if len(run.polls) > mit:
         run.v("C03", "more poll iterations than max_iter", "max-iter-exceeded", (len(run.polls), mit))
@@ -322,7 +326,8 @@ def mon_C13(run):
             f0 = pol["fval0"]
             suff = suff_of(pol["mesh"])
             good = bool(ys) and (f0 - min(ys)) > suff
-            fnow = min(ys) if ys and (f0 - min(ys)) > 0 else f0
+            # the incumbent after the poll: moved by any improvement (sloppy, the default) or only by a sufficient one
+            fnow = min(ys) if ys and ((f0 - min(ys)) > 0 if sloppy else good) else f0
             if good:
                 exp = min(k0 + 1, cap)
             else:
